@@ -120,6 +120,11 @@ static void mh_case(const mhalg_t *a, int fi, uint64_t c, int thorough)
                         snprintf(key_, sizeof key_, "mh-digest-mismatch %s %s %s", a->name, fam_names[fi], route_name[route]);
                         out_viol(g_prop, key_, rbuf, "len=%u pieces=%s digest %s expected %s", len, part, g, e);
                 }
+                /* the context's documented digest field(s) ("the digest of multi-hash SHA1" ...) hold the same values after finalize */
+                if (!rc && (memcmp(ctx, dg, (size_t) 4 * a->dwords) || (murmur && memcmp(ctx + 4 * a->dwords, mur, 16)))) {
+                        snprintf(key_, sizeof key_, "mh-context-digest-field %s %s %s", a->name, fam_names[fi], route_name[route]);
+                        out_viol(g_prop, key_, rbuf, "len=%u: after finalize the digest field of the context differs from the digest written to the output buffer", len);
+                }
                 if (murmur && memcmp(mur, expm, 16)) {
                         char g[33], e[33]; hex(g, mur, 16); hex(e, expm, 16);
                         snprintf(key_, sizeof key_, "murmur-mismatch %s %s", fam_names[fi], route_name[route]);
